@@ -735,13 +735,22 @@ func c20CheckCaveats(ctx *vfCtx, c c20Case, key, key2 []byte, is *c20Issued) {
 			extra = c.Text
 		}
 		alt, err := c20Attenuate(is.tok, extra)
+		times := 1
+		if c.Op == "att-dup" {
+			// a copy may be appended once or several times (an even number of copies, too)
+			times = 1 + c20Mod(c.B, 4)
+			for i := 1; i < times && err == nil; i++ {
+				alt, err = c20Attenuate(alt, extra)
+			}
+		}
 		if err != nil {
 			ctx.Unjudged("attenuation failed: " + err.Error())
 			return
 		}
 		class := c20ExtraClass(extra, is.cavs)
 		ctx.Class("extra:" + class)
-		judgeAll(alt, class, fmt.Sprintf("issued token with the caveat %q appended by its holder (no key needed)", extra))
+		ctx.Class(fmt.Sprintf("extra-copies/%d", times))
+		judgeAll(alt, class, fmt.Sprintf("issued token with the caveat %q appended %d time(s) by its holder (no key needed)", extra, times))
 		if g, e := GetUserFromToken(alt); e != nil || g != c.User {
 			ctx.Class("getuser-after-attenuation:differs")
 		}
